@@ -3,7 +3,6 @@ import json
 import os
 import random
 import re
-import shutil
 import subprocess
 import vlib
 
@@ -73,8 +72,6 @@ def run(ctx):
     lib = vlib.build_lib("asan")
     rep = vlib.build_harness(lib, "c19_replay", ["c19_replay.cpp"])
     rec = vlib.build_harness(lib, "c19_record", ["c19_record.cpp"])
-    # private copies: the shared build cache may be pruned by concurrent runs against other trees while this check runs
-    rep, rec = shutil.copy(rep, ctx.tmp), shutil.copy(rec, ctx.tmp)
     ctx.exhaustive = True
     ctx.rule = ("cases: one per month of years 1..9999 (every day x times of day), one per minute of the day (60 seconds x the "
                 "selected days), one per generated text; evaluations: library calls compared with a TLC-computed value; "
